@@ -140,6 +140,16 @@ fn main() -> Result<(), Error> {
     run_with_ghidra(&cmdline_args)
 }
 
+/// Verification hook (only compiled with `--cfg cwe_checker_verif`):
+/// emit one event per linearisation point of the command line pipeline to stderr.
+#[cfg(cwe_checker_verif)]
+fn verif_event(event: &str, data: serde_json::Value) {
+    eprintln!(
+        "VERIF-EVENT {}",
+        serde_json::json!({ "ev": event, "data": data })
+    );
+}
+
 /// Return `Ok(file_path)` only if `file_path` points to an existing file.
 fn check_file_existence(file_path: &str) -> Result<String, String> {
     if std::fs::metadata(file_path)
@@ -188,6 +198,15 @@ fn run_with_ghidra(args: &CmdlineArgs) -> Result<(), Error> {
         // because it uses up huge amounts of RAM and computation time on some binaries.
         modules.retain(|module| module.name != "CWE78");
     }
+    #[cfg(cwe_checker_verif)]
+    verif_event(
+        "selected",
+        serde_json::json!({
+            "modules": modules.iter().map(|module| module.name).collect::<Vec<_>>(),
+            "lkm": project.runtime_memory_image.is_lkm,
+            "partial": args.partial.is_some(),
+        }),
+    );
 
     // Get the configuration file.
     let config: serde_json::Value = if let Some(ref config_path) = args.config {
@@ -227,6 +246,10 @@ fn run_with_ghidra(args: &CmdlineArgs) -> Result<(), Error> {
     } else {
         None
     };
+    #[cfg(cwe_checker_verif)]
+    if function_signatures.is_some() {
+        verif_event("fn_sigs_computed", serde_json::Value::Null);
+    }
     let analysis_results = analysis_results.with_function_signatures(function_signatures.as_ref());
     // Compute pointer inference if required
     let pi_analysis_results = if pi_analysis_needed {
@@ -234,6 +257,10 @@ fn run_with_ghidra(args: &CmdlineArgs) -> Result<(), Error> {
     } else {
         None
     };
+    #[cfg(cwe_checker_verif)]
+    if pi_analysis_results.is_some() {
+        verif_event("pi_computed", serde_json::Value::Null);
+    }
     let analysis_results = analysis_results.with_pointer_inference(pi_analysis_results.as_ref());
     // Compute string abstraction analysis if required
     let string_abstraction_results =
@@ -245,6 +272,10 @@ fn run_with_ghidra(args: &CmdlineArgs) -> Result<(), Error> {
         } else {
             None
         };
+    #[cfg(cwe_checker_verif)]
+    if string_abstraction_results.is_some() {
+        verif_event("string_abstraction_computed", serde_json::Value::Null);
+    }
     let analysis_results =
         analysis_results.with_string_abstraction(string_abstraction_results.as_ref());
 
@@ -265,10 +296,17 @@ fn run_with_ghidra(args: &CmdlineArgs) -> Result<(), Error> {
     let mut all_cwes = Vec::new();
     for module in modules {
         let (mut logs, mut cwes) = (module.run)(&analysis_results, &config[&module.name]);
+        #[cfg(cwe_checker_verif)]
+        verif_event(
+            "run",
+            serde_json::json!({ "module": module.name, "warnings": cwes.len() }),
+        );
         all_logs.append(&mut logs);
         all_cwes.append(&mut cwes);
     }
     all_cwes.sort();
+    #[cfg(cwe_checker_verif)]
+    verif_event("sorted", serde_json::json!(all_cwes.len()));
 
     // Print the results of the modules.
     if args.quiet {
@@ -282,6 +320,8 @@ fn run_with_ghidra(args: &CmdlineArgs) -> Result<(), Error> {
         }
     }
     print_all_messages(all_logs, all_cwes, args.out.as_deref(), args.json);
+    #[cfg(cwe_checker_verif)]
+    verif_event("printed", serde_json::Value::Null);
     Ok(())
 }
 
